@@ -15,7 +15,8 @@ def Op.target : Op → Nat
   | .assign v _ | .clear v | .detach v | .cview v | .resize v _ | .reserve v _ | .fillFrom v _ _
   | .appendS v _ | .appendP v _ | .appendC v _ | .prependS v _ | .prependP v _ | .replaceC v _ _
   | .lower v | .upper v | .substr v _ _ _ | .trim v _ | .tokenC v _ _ _ | .tokenS v _ _ _ | .join v _ _
-  | .replaceS v _ _ | .replaceL v _ _ | .printf v _ => v
+  | .replaceS v _ _ | .replaceL v _ _ | .printf v _ | .plusEqS v _ | .plusEqC v _ | .plus v _ _ | .plusLit v _ _ _
+  | .fromCStr v _ | .fromCStrN v _ | .fromBool v _ | .fromD v _ | .fromU v _ | .fromPrintf v _ => v
 
 namespace Spec
 
@@ -102,6 +103,16 @@ def newVal (regs : Nat → List Nat) (σ : Nat → List Byte) : Op → Option (L
       if 0 ∉ c ∧ 0 ∉ nd then some (replaceAll nd (rp.map some) c) else none
   | .trim v chars => (allSome (σ v)).map (fun c => (trimL chars c).map some)
   | .upper v => (allSome (σ v)).map fun _ => mapCStr toUpper (σ v)
+  | .plusEqS v w => some (σ v ++ σ w)
+  | .plusEqC v c => some (σ v ++ [some c])
+  | .plus _ a b => some (σ a ++ σ b)
+  | .plusLit _ a r len => some (σ a ++ ((regs r).map some).take len)
+  | .fromCStr _ src => some ((src.takeWhile (· ≠ 0)).map some)
+  | .fromCStrN _ src => some (src.map some)
+  | .fromBool _ b => some ((if b then [116, 114, 117, 101] else [102, 97, 108, 115, 101]).map some)   -- "true" / "false"
+  | .fromD _ x => some ((render [.d x]).map some)
+  | .fromU _ x => some ((render [.u x]).map some)
+  | .fromPrintf _ f => some ((render f).map some)
 
 def step (regs : Nat → List Nat) (σ : Nat → List Byte) (op : Op) : Option (Nat → List Byte) :=
   (newVal regs σ op).map (fun val => upd σ op.target val)
